@@ -24,6 +24,8 @@ from .common import callee_name, depends_on, flow_of, has_fact, subexprs
 SNAX = "snaxc/accelerators/snax.py"
 XDMA = "snaxc/accelerators/snax_xdma.py"
 GEMMX = "snaxc/accelerators/snax_gemmx.py"
+ALU = "snaxc/accelerators/snax_alu.py"
+PHS = "snaxc/accelerators/snax_phs.py"
 VOCAB = ("upper_bounds", "temporal_strides", "spatial_strides", "operands", "zero_address")
 CONFIG_COND = re.compile(r"^(Has\(|isinstance\(\$\d+, StreamerExtension\))")
 
@@ -168,6 +170,61 @@ def run(repo: Repo, chk: Check) -> None:
     bypass_bits(repo, chk)
     rescale_source(repo, chk)
     broadcast_any(repo, chk)
+    loop_counts(repo, chk)
+    zero_points(repo, chk)
+
+
+# --------------------------------------------------------------------------- the zero points are those the kernel op names
+def zero_points(repo: Repo, chk: Check) -> None:
+    """kernel.qmac says which block argument is the zero point of its left and of its right operand; the values packed into the `subtractions` register
+    are the generic's inputs at exactly those argument positions (zp of A in the low byte, zp of B above it), not the scalar inputs in declaration order"""
+    chk.rule("C08.zero-points", "gemmx packs (zero point of A, zero point of B) = (generic input at qmac.zp_lhs's argument index, generic input at qmac.zp_rhs's argument index)", floor=2)
+    f, fl = flow_of(repo, chk, GEMMX, "SNAXGEMMXAccelerator._generate_setup_vals")
+    packs = [s for s in fl.calls("pack_bitlist") if s.reachable and s.node.args and isinstance(s.node.args[0], (ast.Tuple, ast.List)) and len(s.node.args[0].elts) == 2
+             and len(s.node.args) > 1 and ast.unparse(s.node.args[1]).replace(" ", "") in ("[0,8]", "(0,8)")]
+    if not packs:
+        raise AnalysisError(f"{f.where}: packing of the two zero points (offsets 0 and 8) not found")
+    for s in packs:
+        for k_, (side, nm) in enumerate((("zp_lhs", "A"), ("zp_rhs", "B"))):
+            cone = fl.cone(s.node.args[0].elts[k_], s, inline=0)
+            own = norm.contains(cone, T(f"$g.inputs[$q.{side}.index]")) or norm.contains(cone, T(f"$g.operands[$q.{side}.index]"))
+            other = "zp_rhs" if side == "zp_lhs" else "zp_lhs"
+            crossed = norm.contains(cone, T(f"$g.inputs[$q.{other}.index]"))
+            positional = any(isinstance(c_, (ast.GeneratorExp, ast.ListComp)) and norm.contains(c_, T("$g.inputs")) for c_ in ast.walk(cone)) or any(
+                isinstance(x, ast.Subscript) and isinstance(x.slice, ast.Constant) and norm.match(T("$g.inputs"), x.value) is not None for x in ast.walk(cone))
+            if not own and not crossed and not positional:
+                raise AnalysisError(f"{s.where()}: where the zero point of operand {nm} comes from is not recognised: `{ast.unparse(cone)[:120]}`")
+            chk.result(own and not crossed and not positional, "C08.zero-points", f"{f.key}:zp-{nm}", s.where(),
+                       f"the zero point of {nm} is the generic input at the argument index of qmac.{side}",
+                       f"the zero point packed for {nm} is " + ("that of the other operand" if crossed else "picked by position among the generic's inputs") +
+                       f", not the input at the argument index of qmac.{side}: a body that wires its scalar arguments in another order (or one of them twice) gets the zero points exchanged")
+
+
+# --------------------------------------------------------------------------- kernel loop count = number of steps of the streams
+def loop_counts(repo: Repo, chk: Check) -> None:
+    """a streamer makes prod(temporal bounds) steps. A kernel loop count that is read from the stride patterns is that product (gemmx: K*N*M from the products
+    over the bounds), not one of the bounds: with a streamer configuration of several temporal dimensions the kernel would stop after the first dimension"""
+    chk.rule("C08.loop-count", "a kernel loop count taken from a stride pattern's upper bounds is the product over ALL of them, never a single entry", floor=2)
+    n_ = 0
+    for path, qual in ((ALU, "SNAXAluAccelerator._generate_stream_setup_vals"), (PHS, "SNAXPHSAccelerator._generate_stream_setup_vals")):
+        f, fl = flow_of(repo, chk, path, qual)
+        for s in fl.calls("from_int_and_width"):
+            if not s.reachable or not s.node.args:
+                continue
+            v = norm.primary(s.expand(s.node.args[0]))
+            if not norm.contains(v, T("$p.upper_bounds")):
+                continue
+            n_ += 1
+            whole = any(isinstance(c, ast.Call) and callee_name(c) in ("prod", "reduce") and norm.contains(c, T("$p.upper_bounds")) for c in ast.walk(v))
+            single = any(isinstance(x, ast.Subscript) and not isinstance(x.slice, ast.Slice) and (norm.match(T("$p.upper_bounds.data"), x.value) is not None or norm.match(
+                T("$p.upper_bounds"), x.value) is not None) for x in ast.walk(v))
+            if not whole and not single:
+                raise AnalysisError(f"{s.where()}: how the loop count is derived from the upper bounds is not recognised: `{ast.unparse(v)[:100]}`")
+            chk.result(whole and not single, "C08.loop-count", f"{f.key}:loop-count#{n_}", s.where(), "the loop count is the product of all temporal bounds of the pattern",
+                       f"the loop count is `{ast.unparse(v)[:90]}`, one entry of the temporal bounds: for a streamer configuration with several temporal dimensions the kernel "
+                       "loop ends after that many steps while the streams make the product of all bounds")
+    if n_ == 0:
+        raise AnalysisError("no kernel loop count derived from stride-pattern bounds found in the alu / phs value generators")
 
 
 # --------------------------------------------------------------------------- a flag found in ANY spatial dimension
